@@ -73,6 +73,7 @@ type harness struct {
 	txOfPt     int
 	boundaries []boundary
 	recording  bool
+	startMem   string // non-OK levels in memory when recording started
 	n          int
 	cfg        Config
 }
@@ -98,6 +99,8 @@ func (h *harness) snap(after bool) {
 		b.mem = nonOK(h.topicLevels(h.cfg))
 	} else if n := len(h.boundaries); n > 0 {
 		b.mem = h.boundaries[n-1].mem // nothing was committed since the previous boundary
+	} else {
+		b.mem = h.startMem
 	}
 	h.boundaries = append(h.boundaries, b)
 }
@@ -237,13 +240,106 @@ func acceptable(full, pre, post []evrec) bool {
 	return false
 }
 
-func run(t *testing.T, c Case, stats *stat) (p *problem) {
+// class of the transition the point in flight makes for its id (levels of the uninterrupted history)
+func transClass(c Case, point int) string {
+	prev := 0
+	for i := 0; i < point; i++ {
+		if c.IDs[i] == c.IDs[point] {
+			prev = c.Levels[i]
+		}
+	}
+	cur := c.Levels[point]
+	switch {
+	case prev == cur:
+		return "same"
+	case prev == 0:
+		return "raise"
+	case cur == 0:
+		return "recover"
+	}
+	return "change"
+}
+
+func boundaryKey(c Case, b boundary) string {
+	sco := "all"
+	if c.Cfg.SCO {
+		sco = "sco"
+	}
+	return fmt.Sprintf("%s:%s:%s:%s-tx%d", c.Cfg.Task, sco, transClass(c, b.point), map[bool]string{false: "before", true: "after"}[b.after], b.txOfPt)
+}
+
+func fromOf(b boundary, txCount map[int]int) int {
+	// events told before the crash: at a boundary of point i the handlers have been told everything of points < i;
+	// the event of point i itself may or may not have been handed over (it is handed over before the first persist)
+	if b.after && b.txOfPt == txCount[b.point]-1 {
+		return b.point + 1 // the point was completely processed and persisted
+	}
+	return b.point
+}
+
+func txCounts(bs []boundary) map[int]int {
+	m := map[int]int{}
+	for _, b := range bs {
+		if b.after {
+			m[b.point]++
+		}
+	}
+	return m
+}
+
+type restartResult struct {
+	restored, end       map[string]alert.Level
+	postAnon, postNamed []evrec
+	boundaries          []boundary
+	p                   *problem
+}
+
+// restart opens a fresh service + task on a copy of file, feeds points from.. and (optionally) records the
+// transaction boundaries of that continuation
+func restart(t *testing.T, c Case, dir, file, tag string, from int, record bool) (res restartResult) {
+	h2 := &harness{dir: dir}
+	leak, pan := kit.Bubble(t, func() {
+		cp := filepath.Join(dir, "restart-"+tag+".db")
+		data, _ := os.ReadFile(file)
+		os.WriteFile(cp, data, 0o600)
+		if err := h2.open(cp, c.Cfg, false); err != nil {
+			res.p = &problem{"restart-error", fmt.Sprintf("restart failed: %v", err)}
+			return
+		}
+		kit.Wait()
+		res.restored = h2.topicLevels(c.Cfg)
+		h2.n = 1000 * (1 + len(tag))
+		h2.startMem = nonOK(res.restored)
+		h2.recording = record
+		for i := from; i < len(c.Levels); i++ {
+			h2.point, h2.txOfPt = i, 0
+			if err := h2.feed(c, i); err != nil {
+				res.p = &problem{"internal", err.Error()}
+				return
+			}
+			kit.Wait()
+		}
+		h2.recording = false
+		res.postAnon, res.postNamed = h2.logs()
+		res.end = h2.topicLevels(c.Cfg)
+		h2.cur.Shutdown(true)
+	})
+	res.boundaries = h2.boundaries
+	if pan != nil {
+		res.p = &problem{"restart-panic", fmt.Sprintf("panic after restart: %v", pan)}
+	} else if leak != "" && res.p == nil {
+		res.p = &problem{"goroutine-leak", leak}
+	}
+	return
+}
+
+func run(t *testing.T, c Case, stats *stat) (ps []problem) {
 	dir, _ := os.MkdirTemp(kit.TmpDir(), "c08-")
 	defer os.RemoveAll(dir)
 	h := &harness{dir: dir}
 	var fullAnon, fullNamed []evrec
 	var finalLevels map[string]alert.Level
-	var preLogs [][2][]evrec
+	var p *problem
 	// 1. uninterrupted run, recording a snapshot at every transaction boundary
 	leak, pan := kit.Bubble(t, func() {
 		if err := h.open(filepath.Join(dir, "main.db"), c.Cfg, true); err != nil {
@@ -264,7 +360,6 @@ func run(t *testing.T, c Case, stats *stat) (p *problem) {
 			for j := nb; j < len(h.boundaries); j++ {
 				h.boundaries[j].anonLog, h.boundaries[j].namedLog = len(a), len(n)
 			}
-			_ = preLogs
 		}
 		fullAnon, fullNamed = h.logs()
 		finalLevels = h.topicLevels(c.Cfg)
@@ -272,74 +367,48 @@ func run(t *testing.T, c Case, stats *stat) (p *problem) {
 		h.cur.Shutdown(false)
 	})
 	if pan != nil || leak != "" {
-		return &problem{"internal", fmt.Sprintf("uninterrupted run: panic=%v leak=%s", pan, leak)}
+		return []problem{{"internal", fmt.Sprintf("uninterrupted run: panic=%v leak=%s", pan, leak)}}
 	}
 	if p != nil {
-		return p
+		return []problem{*p}
 	}
 	stats.boundaries += int64(len(h.boundaries))
-	// how many transactions does each point have?
-	txCount := map[int]int{}
-	for _, b := range h.boundaries {
-		if b.after {
-			txCount[b.point]++
-		}
-	}
+	txCount := txCounts(h.boundaries)
 	ids := map[string]bool{}
 	for _, id := range c.IDs {
 		ids["m:g="+id] = true
 	}
+	seen := map[string]bool{}
+	add := func(kind, key, msg string) {
+		k := kind + ":" + key
+		if !seen[k] {
+			seen[k] = true
+			ps = append(ps, problem{k, msg})
+		}
+	}
+	desc := func(b boundary) string {
+		return fmt.Sprintf("crash %s the commit of transaction %d of point %d", map[bool]string{false: "before", true: "after"}[b.after], b.txOfPt, b.point)
+	}
 	// 2. crash at every boundary, restart on the copy, continue
 	for bi, b := range h.boundaries {
-		b := b
-		// events told before the crash: at a boundary of point i the handlers have been told everything of points < i;
-		// the event of point i itself may or may not have been handed over (it is handed over before the first persist)
-		from := b.point
-		if b.after && b.txOfPt == txCount[b.point]-1 {
-			from = b.point + 1 // the point was completely processed and persisted
-		}
-		var postAnon, postNamed []evrec
-		var restoredLevels, endLevels map[string]alert.Level
-		h2 := &harness{dir: dir}
-		leak, pan := kit.Bubble(t, func() {
-			cp := filepath.Join(dir, fmt.Sprintf("restart-%d.db", bi))
-			data, _ := os.ReadFile(b.file)
-			os.WriteFile(cp, data, 0o600)
-			if err := h2.open(cp, c.Cfg, false); err != nil {
-				p = &problem{"restart-error", fmt.Sprintf("restart on the storage of boundary %d failed: %v", bi, err)}
-				return
-			}
-			kit.Wait()
-			restoredLevels = h2.topicLevels(c.Cfg)
-			for i := from; i < len(c.Levels); i++ {
-				if err := h2.feed(c, i); err != nil {
-					p = &problem{"internal", err.Error()}
-					return
-				}
-				kit.Wait()
-			}
-			postAnon, postNamed = h2.logs()
-			endLevels = h2.topicLevels(c.Cfg)
-			h2.cur.Shutdown(true)
-		})
+		from := fromOf(b, txCount)
+		second := c.Cfg.Task == "both" && (rep.Thorough() || c.IDs[0] != c.IDs[1])
+		res := restart(t, c, dir, b.file, fmt.Sprint(bi), from, second)
 		stats.restarts++
-		if pan != nil {
-			return &problem{"restart-panic", fmt.Sprintf("panic after restart at boundary %d: %v", bi, pan)}
+		key := boundaryKey(c, b)
+		where := fmt.Sprintf("%s (levels %v ids %v, %s)", desc(b), c.Levels, c.IDs, c.Cfg.script())
+		if res.p != nil {
+			add(res.p.kind, key, where+": "+res.p.msg)
+			continue
 		}
-		if leak != "" && p == nil {
-			return &problem{"goroutine-leak", leak}
-		}
-		if p != nil {
-			return p
-		}
-		where := fmt.Sprintf("crash %s the commit of transaction %d of point %d (levels %v ids %v, %s)", map[bool]string{false: "before", true: "after"}[b.after], b.txOfPt, b.point, c.Levels, c.IDs, c.Cfg.script())
+		restoredLevels, endLevels, postAnon, postNamed := res.restored, res.end, res.postAnon, res.postNamed
 		// (i) right after the restart every id is at the last level recorded for it (OK / absent otherwise)
 		if nonOK(restoredLevels) != b.mem {
-			return &problem{"restored-state", fmt.Sprintf("%s: topic state right after restart %q, recorded at the crash %q", where, nonOK(restoredLevels), b.mem)}
+			add("restored-state", key, fmt.Sprintf("%s: topic state right after restart %q, recorded at the crash %q", where, nonOK(restoredLevels), b.mem))
 		}
 		// (ii) final state
 		if nonOK(endLevels) != nonOK(finalLevels) {
-			return &problem{"final-state", fmt.Sprintf("%s: final topic state %q, uninterrupted run %q (state right after restart %q)", where, nonOK(endLevels), nonOK(finalLevels), nonOK(restoredLevels))}
+			add("final-state", key, fmt.Sprintf("%s: final topic state %q, uninterrupted run %q (state right after restart %q)", where, nonOK(endLevels), nonOK(finalLevels), nonOK(restoredLevels)))
 		}
 		// (iii) handler logs per id
 		for id := range ids {
@@ -354,7 +423,7 @@ func run(t *testing.T, c Case, stats *stat) (p *problem) {
 				}
 				post := perID(postAnon, id)
 				if !acceptableAny(full, pre, post, from) {
-					return &problem{"handler-log:anon", fmt.Sprintf("%s: exec handler of %s: uninterrupted %s, told before the crash %s, told after restart %s", where, id, fmtEv(full), fmtEv(pre), fmtEv(post))}
+					add("handler-log:anon", key, fmt.Sprintf("%s: exec handler of %s: uninterrupted %s, told before the crash %s, told after restart %s", where, id, fmtEv(full), fmtEv(pre), fmtEv(post)))
 				}
 			}
 			if c.Cfg.Task != "anon" {
@@ -367,15 +436,40 @@ func run(t *testing.T, c Case, stats *stat) (p *problem) {
 				}
 				post := perID(postNamed, id)
 				if !acceptableAny(full, pre, post, from) {
-					return &problem{"handler-log:named", fmt.Sprintf("%s: handler on topic nt for %s: uninterrupted %s, told before the crash %s, told after restart %s", where, id, fmtEv(full), fmtEv(pre), fmtEv(post))}
+					add("handler-log:named", key, fmt.Sprintf("%s: handler on topic nt for %s: uninterrupted %s, told before the crash %s, told after restart %s", where, id, fmtEv(full), fmtEv(pre), fmtEv(post)))
 				}
 			}
 		}
 		if nonOK(restoredLevels) != "" {
 			stats.nonTrivial++
 		}
+		// 3. a second crash at every boundary of the continuation (tasks with two topics: the two topics can
+		// disagree after the first restart)
+		if second {
+			tx2 := txCounts(res.boundaries)
+			stats.boundaries += int64(len(res.boundaries))
+			for bj, b2 := range res.boundaries {
+				from2 := fromOf(b2, tx2)
+				r2 := restart(t, c, dir, b2.file, fmt.Sprintf("%d-%d", bi, bj), from2, false)
+				stats.restarts++
+				stats.second++
+				key2 := "second:" + boundaryKey(c, b2)
+				where2 := fmt.Sprintf("%s, restart, then %s (levels %v ids %v, %s)", desc(b), desc(b2), c.Levels, c.IDs, c.Cfg.script())
+				if r2.p != nil {
+					add(r2.p.kind, key2, where2+": "+r2.p.msg)
+					continue
+				}
+				if nonOK(r2.restored) != b2.mem {
+					add("restored-state", key2, fmt.Sprintf("%s: topic state right after the second restart %q, recorded at the second crash %q", where2, nonOK(r2.restored), b2.mem))
+				}
+				// the final state is only comparable when the first restart alone already converges
+				if nonOK(endLevels) == nonOK(finalLevels) && nonOK(r2.end) != nonOK(finalLevels) {
+					add("final-state", key2, fmt.Sprintf("%s: final topic state %q, uninterrupted run %q", where2, nonOK(r2.end), nonOK(finalLevels)))
+				}
+			}
+		}
 	}
-	return nil
+	return ps
 }
 
 // acceptableAny: the handlers had certainly been told `pre` (events of completely processed points); the event of
@@ -401,29 +495,38 @@ func max0(x int) int {
 	return x
 }
 
-type stat struct{ boundaries, restarts, nonTrivial int64 }
+type stat struct{ boundaries, restarts, nonTrivial, second int64 }
 
 func TestCheck(t *testing.T) {
 	defer kit.CleanupTmp()
 	r := rep.New("C08", "fault_enumeration",
-		"alert state across restarts: tasks whose alert has an anonymous topic (.exec handler), a named topic, or both, with and without stateChangesOnly, topic persistence on, over a real alert service on a real Bolt file; level sequences over {OK,INFO,WARNING,CRITICAL} for one id (all sequences of length 4) and two interleaved ids (all sequences of length 2 each); one uninterrupted run records a copy of the Bolt file before and after the commit of EVERY transaction of the topic state store; for every such boundary: fresh alert service + TaskMaster on the copy, same task, the remaining data re-fed (starting with the point in flight unless it was completely persisted). Oracle: final topic state equals the uninterrupted run, per handler and id the post-restart events are the uninterrupted run's remaining events, at worst preceded by a repeat of the last event told before the crash. non-trivial = restarts whose restored storage held at least one non-OK state")
+		"alert state across restarts: tasks whose alert has an anonymous topic (.exec handler), a named topic, or both, with and without stateChangesOnly, topic persistence on, over a real alert service on a real Bolt file; level sequences over {OK,INFO,WARNING,CRITICAL} for one id (all sequences of length 4) and two interleaved ids (all sequences of length 2 each, both orders a,b,a,b and b,a,b,a so that either id sorts first in the store); one uninterrupted run records a copy of the Bolt file before and after the commit of EVERY transaction of the topic state store; for every such boundary: fresh alert service + TaskMaster on the copy, same task, the remaining data re-fed (starting with the point in flight unless it was completely persisted). For tasks with both topics a SECOND crash is enumerated at every transaction boundary of the continuation after the first restart (quick: two-id histories only). Oracle: right after every restart the topic states equal the states in memory at the crash; final topic state equals the uninterrupted run, per handler and id the post-restart events are the uninterrupted run's remaining events, at worst preceded by a repeat of the last event told before the crash. Part B: every history up to the depth bound of the persistence operations an alert node / a task deletion perform on the real alert service over the real Bolt file (Collect and UpdateEvent over 2 topics x 2 ids x {OK,CRITICAL}, DeleteTopic, restart), plus a final restart: after every step the non-OK event states the service reports equal a map. non-trivial = restarts whose restored storage held at least one non-OK state")
 	defer r.Write()
 	r.Assumption("bbolt commit atomicity is trusted: the file between two commits equals the file after the earlier commit; torn pages are out of scope")
 	r.Assumption("at a crash the events already handed to the (buffered) handlers count as told; events still queued in memory are an at-most-once delivery limit outside the stated crash model")
 	r.Assumption("event durations are not compared across a restart")
 
 	if rep.ReplayPath() != "" {
+		var sc SvcCase
+		if err := rep.LoadReplay(&sc); err == nil && len(sc.Ops) > 0 {
+			if p, _ := runSvc(t, sc); p != nil {
+				r.Violation(p.kind, p.msg, sc)
+			}
+			r.Add("evaluations", 1)
+			return
+		}
 		var c Case
 		if err := rep.LoadReplay(&c); err != nil {
 			t.Fatal(err)
 		}
 		var st stat
-		if p := run(t, c, &st); p != nil {
-			r.Violation(p.kind+":"+c.Cfg.Task, p.msg, c)
+		for _, p := range run(t, c, &st) {
+			r.Violation(p.kind, p.msg, c)
 		}
 		r.Add("evaluations", 1)
 		return
 	}
+	svcPart(t, r)
 	var cases []Case
 	l1, l2 := 4, 2
 	if rep.Thorough() {
@@ -452,15 +555,17 @@ func TestCheck(t *testing.T) {
 			for i := 0; i < 2*l2; i++ {
 				n *= 4
 			}
-			for x := 0; x < n; x++ {
-				c := Case{Cfg: cfg}
-				y := x
-				for i := 0; i < 2*l2; i++ {
-					c.Levels = append(c.Levels, y%4)
-					c.IDs = append(c.IDs, []string{"a", "b"}[i%2])
-					y /= 4
+			for _, order := range [][]string{{"a", "b"}, {"b", "a"}} {
+				for x := 0; x < n; x++ {
+					c := Case{Cfg: cfg}
+					y := x
+					for i := 0; i < 2*l2; i++ {
+						c.Levels = append(c.Levels, y%4)
+						c.IDs = append(c.IDs, order[i%2])
+						y /= 4
+					}
+					cases = append(cases, c)
 				}
-				cases = append(cases, c)
 			}
 		}
 	}
@@ -473,8 +578,8 @@ func TestCheck(t *testing.T) {
 			r.Cap("deadline")
 			break
 		}
-		if p := run(t, c, &st); p != nil {
-			r.Violation(p.kind+":"+c.Cfg.Task, p.msg, c)
+		for _, p := range run(t, c, &st) {
+			r.Violation(p.kind, p.msg, c)
 		}
 		r.Add("histories", 1)
 		if r.WantSample() && i%500 == 9 {
@@ -483,5 +588,6 @@ func TestCheck(t *testing.T) {
 	}
 	r.Add("evaluations", st.restarts)
 	r.Add("crash_points", st.boundaries)
+	r.Add("second_restarts", st.second)
 	r.AddDistinct("nontrivial", st.nonTrivial)
 }
